@@ -12,7 +12,7 @@ use tree_sitter_graph::functions::Functions;
 use tree_sitter_graph::{ExecutionConfig, Identifier, NoCancellation, Variables};
 
 pub fn run(rep: &mut Report, tier: &str, seed: u64) {
-    rep.rule = "generated programs x small sources x {strict, lazy}; for each, cancellation at EVERY poll k = 1..N of the uncancelled run (exhaustive in k); \
+    rep.rule = "generated programs x small sources x {strict, lazy}; for each, cancellation at EVERY poll k = 1..N of the uncancelled run (exhaustive in k for N <= 1500; beyond: the first 600, the last 200 and ~400 evenly spaced polls); \
                 non-trivial = N >= 5; distinct by (program, source)"
         .to_string();
     rep.correspondence = "exec with cancelAt: model polls <= implementation polls (no mandatory poll lost); cancelled runs return Cancelled with k polls in both".to_string();
@@ -57,7 +57,23 @@ pub fn run(rep: &mut Report, tier: &str, seed: u64) {
                     }
                 }
                 let upto = n.min(max_k);
-                for k in 1..=upto {
+                // every k for runs of ordinary length; for very long runs (wide sources: thousands of polls, and every k is a
+                // whole run) the first 600 polls, the last 200 and an even sample in between
+                let ks: Vec<usize> = if upto <= 1500 {
+                    (1..=upto).collect()
+                } else {
+                    rep.count("cancellation-points-sampled-in-a-long-run");
+                    let mut v: Vec<usize> = (1..=600).collect();
+                    let stride = ((upto - 800) / 400).max(1);
+                    let mut k = 601;
+                    while k + 200 <= upto {
+                        v.push(k);
+                        k += stride;
+                    }
+                    v.extend(upto - 199..=upto);
+                    v
+                };
+                for k in ks {
                     let cfgk = RunCfg { cancel_at: Some(k), ..cfg.clone() };
                     let ir = run_impl(&case.loaded.file, &case.source.tree, &case.source.src, case.info, &cfgk);
                     rep.count("cancellation-points");
